@@ -21,28 +21,28 @@ func init() { register("C09", checkC09) }
 // Free-text fields (DESIGN appendix A.6): struct › field. Source: Swagger 2.0 object
 // definitions (fields documented as free text) and the view-model fields that carry them.
 var freeText = map[string]map[string]bool{
-	"InfoProps":              {"Title": true, "Description": true, "TermsOfService": true, "Version": true},
-	"ContactInfoProps":       {"Name": true, "URL": true, "Email": true},
-	"LicenseProps":           {"Name": true, "URL": true},
-	"ExternalDocumentation":  {"Description": true, "URL": true},
-	"TagProps":               {"Description": true},
-	"GenApp":                 {"Host": true, "BasePath": true},
-	"GenCommon":              {"Copyright": true},
-	"GenOperation":           {"Summary": true, "Description": true, "BasePath": true},
-	"GenOperationGroup":      {"Summary": true, "Description": true},
-	"GenParameter":           {"Description": true, "Default": true},
-	"GenHeader":              {"Description": true, "Default": true},
-	"GenItems":               {"Default": true},
-	"GenResponse":            {"Description": true},
-	"GenResponseExample":     {"Example": true},
-	"GenSchema":              {"Description": true, "Title": true, "Example": true, "Default": true},
-	"GenDefinition":          {},
-	"CommonValidations":      {"Pattern": true},
-	"SchemaValidations":      {"Pattern": true},
-	"GenSecurityScheme":      {"Description": true},
-	"GenSecurityScope":       {"Description": true},
-	"SecuritySchemeProps":    {"Description": true},
-	"GenTag":                 {"Description": true},
+	"InfoProps":             {"Title": true, "Description": true, "TermsOfService": true, "Version": true},
+	"ContactInfoProps":      {"Name": true, "URL": true, "Email": true},
+	"LicenseProps":          {"Name": true, "URL": true},
+	"ExternalDocumentation": {"Description": true, "URL": true},
+	"TagProps":              {"Description": true},
+	"GenApp":                {"Host": true, "BasePath": true},
+	"GenCommon":             {"Copyright": true},
+	"GenOperation":          {"Summary": true, "Description": true, "BasePath": true},
+	"GenOperationGroup":     {"Summary": true, "Description": true},
+	"GenParameter":          {"Description": true, "Default": true},
+	"GenHeader":             {"Description": true, "Default": true},
+	"GenItems":              {"Default": true},
+	"GenResponse":           {"Description": true},
+	"GenResponseExample":    {"Example": true},
+	"GenSchema":             {"Description": true, "Title": true, "Example": true, "Default": true},
+	"GenDefinition":         {},
+	"CommonValidations":     {"Pattern": true},
+	"SchemaValidations":     {"Pattern": true},
+	"GenSecurityScheme":     {"Description": true},
+	"GenSecurityScope":      {"Description": true},
+	"SecuritySchemeProps":   {"Description": true},
+	"GenTag":                {"Description": true},
 }
 
 // safe[context][kind]
@@ -458,7 +458,6 @@ func checkPrintTags(c *Ctx, gen *packages.Package) {
 		"the back-quoted form is returned only when no tag value failed strconv.CanBackquote (monotone flag set in a loop over all values)",
 		"the back-quoted tag is not guarded by a monotone 'some value cannot be back-quoted' flag computed over every tag value: a backtick in a description placed in a struct tag ends the tag literal")
 }
-
 
 func onlyPrint(funcs []string) bool {
 	for _, f := range funcs {
